@@ -1,9 +1,149 @@
 (* C19: symbols are interned consistently across interpreters sharing a table.
-   Statements only; the proofs are in Proofs/SymtabProofs.v. *)
+   Statements only; the proofs are in Proofs/SymtabProofs.v.
+   Model: Model/Symtab.v (environment.go MakeSymbol / GenSymbol / Duplicate / Clone over a family of
+   members sharing symtable and revsymtable, each with its own nextsymbol counter). *)
 From Coq Require Import ZArith Bool List.
 From ZV Require Import Model.Symtab Proofs.SymtabProofs.
 Import ListNotations.
 Open Scope Z_scope.
 
+(* ---- 1. the invariant: symtable and revsymtable are inverse partial bijections,
+        preserved by every operation of every member in every interleaving ---- *)
+
+Theorem tables_inverse_step : forall st o st' r,
+  step st o = (st', r) -> tables_inverse st -> tables_inverse st'.
+Proof. exact SymtabProofs.step_inverse. Qed.
+Print Assumptions tables_inverse_step.
+
+Theorem tables_inverse_preserved : forall ops st,
+  tables_inverse st -> tables_inverse (fst (run st ops)).
+Proof. exact SymtabProofs.run_inverse. Qed.
+Print Assumptions tables_inverse_preserved.
+
+(* the table only grows: a symbol never changes its number *)
+Theorem symbols_are_stable : forall ops st nm k,
+  lookup_name nm (symtable st) = Some k -> lookup_name nm (symtable (fst (run st ops))) = Some k.
+Proof. exact (fun ops st => SymtabProofs.run_extends ops st). Qed.
+Print Assumptions symbols_are_stable.
+
+(* ---- 2. equal symbols (same number) exactly when equal names, for any two symbols returned
+        anywhere in a history by any member, or present in the table before it ---- *)
+
+Theorem equal_iff_same_name : forall st ops n1 k1 n2 k2, tables_inverse st ->
+  symbol_of st ops n1 k1 -> symbol_of st ops n2 k2 -> (k1 = k2 <-> n1 = n2).
+Proof. exact SymtabProofs.equal_iff_same_name. Qed.
+Print Assumptions equal_iff_same_name.
+
+(* comparisons.go compareSymbol and hashutils.go hashHelper work on the numbers *)
+Theorem compare_zero_iff_same_name : forall st ops n1 k1 n2 k2, tables_inverse st ->
+  symbol_of st ops n1 k1 -> symbol_of st ops n2 k2 ->
+  (compare_symbol k1 k2 = 0 <-> n1 = n2) /\ (n1 = n2 -> hash_symbol k1 = hash_symbol k2).
+Proof. exact SymtabProofs.compare_zero_iff_same_name. Qed.
+Print Assumptions compare_zero_iff_same_name.
+
+(* ---- 3. a generated symbol is new ---- *)
+
+(* in ANY state (no invariant needed): the name was not interned and the number was not used *)
+Theorem gensym_fresh : forall st i p st' nm k, gen_symbol st i p = (st', OSym nm k) ->
+  lookup_name nm (symtable st) = None /\ lookup_num k (revsymtable st) = None /\
+  is_prefix p nm = true /\ lookup_name nm (symtable st') = Some k.
+Proof. exact SymtabProofs.gensym_fresh. Qed.
+Print Assumptions gensym_fresh.
+
+Theorem gensym_differs_from_existing : forall st i p st' nm k, tables_inverse st ->
+  gen_symbol st i p = (st', OSym nm k) ->
+  forall n' k', lookup_name n' (symtable st) = Some k' -> n' <> nm /\ k' <> k.
+Proof. exact SymtabProofs.gensym_differs_from_existing. Qed.
+Print Assumptions gensym_differs_from_existing.
+
+(* in any history, whatever names were interned before by whichever member *)
+Theorem gensym_differs_from_earlier : forall st ops i p nm k, tables_inverse st ->
+  snd (run st (ops ++ [GenSym i p])) = snd (run st ops) ++ [OSym nm k] ->
+  forall n' k', symbol_of st ops n' k' -> n' <> nm /\ k' <> k.
+Proof. exact SymtabProofs.gensym_differs_from_earlier. Qed.
+Print Assumptions gensym_differs_from_earlier.
+
+Theorem two_gensyms_differ : forall st ops1 i p ops2 j q outs1 n1 k1 outs2 n2 k2, tables_inverse st ->
+  snd (run st (ops1 ++ GenSym i p :: ops2 ++ [GenSym j q])) = outs1 ++ OSym n1 k1 :: outs2 ++ [OSym n2 k2] ->
+  length outs1 = length ops1 -> n1 <> n2 /\ k1 <> k2.
+Proof. exact SymtabProofs.two_gensyms_differ. Qed.
+Print Assumptions two_gensyms_differ.
+
+(* ---- 4. the search loops terminate within their fuel: the out-of-fuel outcome is unreachable ---- *)
+
+Theorem itoa_injective : forall a b, itoa a = itoa b -> a = b.
+Proof. exact SymtabProofs.itoa_inj. Qed.
+Print Assumptions itoa_injective.
+
+Theorem skip_used_terminates : forall rev c, skip_used (S (length rev)) rev c <> None.
+Proof. exact SymtabProofs.skip_used_enough. Qed.
+Print Assumptions skip_used_terminates.
+
+Theorem gen_search_terminates : forall tab p n, gen_search (S (length tab)) tab p n <> None.
+Proof. exact SymtabProofs.gen_search_enough. Qed.
+Print Assumptions gen_search_terminates.
+
+Theorem run_never_out_of_fuel : forall st ops, ~ In OFuel (snd (run st ops)).
+Proof. exact SymtabProofs.run_never_out_of_fuel. Qed.
+Print Assumptions run_never_out_of_fuel.
+
+(* ---- 5. refinement: every history of the model is accepted by the injective-table
+        specification (Symtab.spec_check: no counters, no search) ---- *)
+
+Theorem model_refines_spec : forall ops st, wf_tables st -> ~ In OBadMember (snd (run st ops)) ->
+  spec_accepts (symtable st) (combine ops (snd (run st ops))) = true.
+Proof. exact SymtabProofs.model_accepted. Qed.
+Print Assumptions model_refines_spec.
+
+(* what acceptance means, independently of the model (this is what the harness applies to the
+   answers of the real interpreters) *)
+Theorem spec_sound_equal_iff_same_name : forall known obs n1 k1 n2 k2, table_injective known ->
+  spec_accepts known obs = true ->
+  ((exists o, In (o, OSym n1 k1) obs) \/ In (n1, k1) known) ->
+  ((exists o, In (o, OSym n2 k2) obs) \/ In (n2, k2) known) ->
+  (k1 = k2 <-> n1 = n2).
+Proof. exact SymtabProofs.spec_sound_equal_iff_same_name. Qed.
+Print Assumptions spec_sound_equal_iff_same_name.
+
+Theorem spec_sound_gensym_fresh : forall known obs1 i p n k obs2 n' k', table_injective known ->
+  spec_accepts known (obs1 ++ (GenSym i p, OSym n k) :: obs2) = true ->
+  ((exists o, In (o, OSym n' k') obs1) \/ In (n', k') known) -> n' <> n /\ k' <> k.
+Proof. exact SymtabProofs.spec_sound_gensym_fresh. Qed.
+Print Assumptions spec_sound_gensym_fresh.
+
+(* the invariant check run on the model state after each history is sound *)
+Theorem inv_check_sound : forall st, inv_check st = true -> tables_inverse st.
+Proof. exact SymtabProofs.inv_check_sound. Qed.
+Print Assumptions inv_check_sound.
+
+Theorem empty_tables_wf : forall cs, wf_tables (mkState [] [] cs).
+Proof. exact SymtabProofs.empty_wf. Qed.
+Print Assumptions empty_tables_wf.
+
+(* ---- 6. non-vacuity ---- *)
+
 Example ex_itoa : itoa 0 = [48] /\ itoa 12 = [49; 50] /\ itoa 1090 = [49; 48; 57; 48] /\ itoa (-5) = [45; 53].
 Proof. exact SymtabProofs.ex_itoa. Qed.
+
+Example ex_family_gensym :
+  snd (run (mkState [] [] [5]) [Dup 0; GenSym 0 nm_g; GenSym 1 nm_g; MkSym 1 nm_a; MkSym 0 nm_a]) =
+  [ONone; OSym [103; 53] 5; OSym [103; 54] 6; OSym nm_a 7; OSym nm_a 7].
+Proof. exact SymtabProofs.ex_family_gensym. Qed.
+
+Example ex_preinterned_shape :
+  snd (run (mkState [] [] [5]) [MkSym 0 [103; 54]; MkSym 0 [103; 55]; GenSym 0 nm_g; GenSym 0 nm_g]) =
+  [OSym [103; 54] 5; OSym [103; 55] 6; OSym [103; 56] 7; OSym [103; 57] 8].
+Proof. exact SymtabProofs.ex_preinterned_shape. Qed.
+
+Example ex_lagging_counter :
+  run (mkState [] [] [5]) [Clone 0; MkSym 0 nm_a; MkSym 0 nm_g; MkSym 1 [98]] =
+  (mkState [([98], 7); (nm_g, 6); (nm_a, 5)] [(7, [98]); (6, nm_g); (5, nm_a)] [7; 8],
+   [ONone; OSym nm_a 5; OSym nm_g 6; OSym [98] 7]).
+Proof. exact SymtabProofs.ex_lagging_counter. Qed.
+
+Example ex_spec_rejects_reuse :
+  spec_accepts [] [(GenSym 0 nm_g, OSym [103; 53] 5); (GenSym 1 nm_g, OSym [103; 53] 5)] = false /\
+  spec_accepts [] [(MkSym 0 nm_a, OSym nm_a 5); (MkSym 1 nm_g, OSym nm_g 5)] = false /\
+  spec_accepts [] [(MkSym 0 nm_a, OSym nm_a 5); (MkSym 1 nm_a, OSym nm_a 6)] = false /\
+  spec_accepts [] [(MkSym 0 nm_a, OSym nm_a 5); (Dup 0, ONone); (GenSym 1 nm_g, OSym [103; 54] 6)] = true.
+Proof. exact SymtabProofs.ex_spec_rejects_reuse. Qed.
